@@ -3,119 +3,203 @@
 (* are examined in the done-state (so that TLC's workers share the work).                       *)
 (*   kind "date": a series on a subset of NPts index points (the even positions of the grid      *)
 (*                1..2*NPts+1), bounds anywhere on the grid (before / on / between / after the   *)
-(*                index points) or None, the four bracket pairs;                                 *)
+(*                index points) or None, the four bracket pairs; and series on NDup points that  *)
+(*                carry up to MaxMult rows per timestamp (sorted index with repeated stamps);    *)
 (*   kind "tod" : a series on a subset of NDays x NSlots intraday points, bounds = times of day  *)
-(*                on a grid twice as fine, including windows that wrap past midnight;            *)
+(*                on a grid twice as fine, including windows that wrap past midnight; and series *)
+(*                with repeated timestamps on NDupSlots points of day 1 + one of day 2;          *)
+(*   kind "ltod": an index in a time zone z of ZoneCfg: day 1 is the day the clocks change       *)
+(*                (rows at NZE elapsed slots around the change), day 2 an ordinary day (NZ2);    *)
+(*                every row carries its local wall-clock time of day, bounds = times of day;     *)
 (*   kind "stitch": k series over p index points with k increasing or decreasing bounds and      *)
 (*                n in 1..k, for every <<k, p>> in StitchCfg; action Again continues a stitch    *)
-(*                case as a session of calls on the same lists (every invariant holds again).   *)
+(*                case as a session of calls on the same lists (every invariant holds again);    *)
+(*                for <<k, p>> in StitchNaNCfg the series also record a missing value (NaN) at    *)
+(*                one of the index points: a row is a row whatever its value;                    *)
+(*   kind "stitchdup": one-column stitching of series with repeated timestamps (StitchDupCfg).   *)
 (* EvalGen prints every case with the outcome the specification expects (S2C).                   *)
 EXTENDS Slice, TLC, Json
-CONSTANTS NPts, NDays, NSlots, StitchCfg
+CONSTANTS NPts, NDays, NSlots, StitchCfg, NDup, MaxMult, NDupSlots, ZoneCfg, NZE, NZ2, StitchDupCfg, StitchNaNCfg
 
-VARIABLES kind, s, lb, ub, oc, ubs, n, done, res     \* res: the expected result, computed once by Eval
-vars == <<kind, s, lb, ub, oc, ubs, n, done, res>>
+VARIABLES kind, s, lb, ub, oc, ubs, n, done, res, z     \* res: the expected result, computed once by Eval
+vars == <<kind, s, lb, ub, oc, ubs, n, done, res, z>>
 \* the case as one record (s = the series of a slice case, the list of series of a stitch case)
 cs == [kind |-> kind, s |-> s, ss |-> s, lb |-> lb, ub |-> ub, oc |-> oc, ubs |-> ubs, n |-> n]
 
 B   == 100
 OCs == {<<"[", "]">>, <<"[", ")">>, <<"(", "]">>, <<"(", ")">>}
+NoZone == [kind |-> "n", G |-> 0, H |-> 0]
 SeriesOn(T, code) == LET ts == SetToSortSeq(T, <) IN
     [rows |-> ts, cols |-> <<[i \in 1..Len(ts) |-> code + ts[i]]>>]
+SeriesOnNaN(T, code, np) == LET ts == SetToSortSeq(T, <) IN
+    [rows |-> ts, cols |-> <<[i \in 1..Len(ts) |-> IF ts[i] = np THEN NaN ELSE code + ts[i]]>>]
 TwoCols(T) == LET ts == SetToSortSeq(T, <) IN
     [rows |-> ts, cols |-> <<[i \in 1..Len(ts) |-> ts[i]], [i \in 1..Len(ts) |-> 5000 + ts[i]]>>]
+\* a sorted index in which point p occurs m[p] times; the cells are position codes, so that it shows
+\* WHICH of the rows with equal timestamps came back
+RECURSIVE Repeat(_, _)
+Repeat(ts, m) == IF ts = <<>> THEN <<>> ELSE [k \in 1..m[Head(ts)] |-> Head(ts)] \o Repeat(Tail(ts), m)
+DupRows(m) == Repeat(SetToSortSeq(DOMAIN m, <), m)
+DupCols(m, code) == LET ts == DupRows(m) IN
+    [rows |-> ts, cols |-> <<[i \in 1..Len(ts) |-> code + i], [i \in 1..Len(ts) |-> 5000 + code + i]>>]
+DupOne(m, code)  == LET ts == DupRows(m) IN [rows |-> ts, cols |-> <<[i \in 1..Len(ts) |-> code + i]>>]
+Mults(P) == {m \in [P -> 0..MaxMult] : \E p \in P : m[p] >= 2}
 
 DatePts == {2 * i : i \in 1..NPts}
 TodPts  == {d * B + 2 * g : d \in 1..NDays, g \in 1..NSlots}
 InitDate == /\ kind = "date" /\ \E T \in SUBSET DatePts : s = TwoCols(T)
-            /\ lb \in 0..(2 * NPts + 1) /\ ub \in 0..(2 * NPts + 1) /\ oc \in OCs /\ ubs = <<>> /\ n = 0
+            /\ lb \in 0..(2 * NPts + 1) /\ ub \in 0..(2 * NPts + 1) /\ oc \in OCs /\ ubs = <<>> /\ n = 0 /\ z = NoZone
 InitTod  == /\ kind = "tod" /\ \E T \in SUBSET TodPts : s = TwoCols(T)
-            /\ lb \in 0..(2 * NSlots + 1) /\ ub \in 0..(2 * NSlots + 1) /\ oc \in OCs /\ ubs = <<>> /\ n = 0
+            /\ lb \in 0..(2 * NSlots + 1) /\ ub \in 0..(2 * NSlots + 1) /\ oc \in OCs /\ ubs = <<>> /\ n = 0 /\ z = NoZone
+InitDateDup == /\ kind = "date" /\ \E m \in Mults({2 * i : i \in 1..NDup}) : s = DupCols(m, 100)
+            /\ lb \in 0..(2 * NDup + 1) /\ ub \in 0..(2 * NDup + 1) /\ oc \in OCs /\ ubs = <<>> /\ n = 0 /\ z = NoZone
+InitTodDup  == /\ kind = "tod" /\ \E m \in Mults({B + 2 * g : g \in 1..NDupSlots} \cup {2 * B + 2}) : s = DupCols(m, 100)
+            /\ lb \in 0..(2 * NDupSlots + 1) /\ ub \in 0..(2 * NDupSlots + 1) /\ oc \in OCs /\ ubs = <<>> /\ n = 0 /\ z = NoZone
+\* an index in a time zone: the instants, and next to them the wall-clock time of day of every row
+ZLo(zz) == IF zz.G > 2 THEN zz.G - 2 ELSE 1                 \* the first slot looked at: two before the change
+ZonePts(zz) == {B + e : e \in ZLo(zz)..(ZLo(zz) + NZE - 1)} \cup {2 * B + e : e \in (ZLo(zz) + 1)..(ZLo(zz) + NZ2)}
+ZoneTop(zz) == ZLo(zz) + NZE + zz.H                            \* bounds up to one slot past the latest wall-clock reading
+ZoneFrame(T, zz) == LET f == TwoCols(T) IN
+    [rows |-> f.rows, cols |-> f.cols,
+     tod  |-> [i \in 1..Len(f.rows) |-> IF f.rows[i] \div B = 1 THEN LocalTod(zz, f.rows[i] % B) ELSE f.rows[i] % B]]
+InitZone == /\ kind = "ltod" /\ z \in ZoneCfg /\ \E T \in SUBSET ZonePts(z) : s = ZoneFrame(T, z)
+            /\ lb \in 0..ZoneTop(z) /\ ub \in 0..ZoneTop(z) /\ oc \in OCs /\ ubs = <<>> /\ n = 0
 InitStitch == \E kp \in StitchCfg :
-            /\ kind = "stitch" /\ lb = 0 /\ ub = 0 /\ oc = <<"(", "]">>
+            /\ kind = "stitch" /\ lb = 0 /\ ub = 0 /\ oc = <<"(", "]">> /\ z = NoZone
             /\ \E Ts \in [1..kp[1] -> SUBSET {2 * i : i \in 1..kp[2]}] : s = [i \in 1..kp[1] |-> SeriesOn(Ts[i], 1000 * i)]
             /\ ubs \in {v \in [1..kp[1] -> 1..(2 * kp[2] + 1)] : Increasing(v) \/ Decreasing(v)}
             /\ n \in 1..kp[1]
+InitStitchNaN == \E kp \in StitchNaNCfg :
+            /\ kind = "stitch" /\ lb = 0 /\ ub = 0 /\ oc = <<"(", "]">> /\ z = NoZone
+            /\ \E Ts \in [1..kp[1] -> SUBSET {2 * i : i \in 1..kp[2]}], np \in {2 * i : i \in 1..kp[2]} :
+                  /\ \E i \in 1..kp[1] : np \in Ts[i]
+                  /\ s = [i \in 1..kp[1] |-> SeriesOnNaN(Ts[i], 1000 * i, np)]
+            /\ ubs \in {v \in [1..kp[1] -> 1..(2 * kp[2] + 1)] : Increasing(v) \/ Decreasing(v)}
+            /\ n \in 1..kp[1]
+InitStitchDup == \E kp \in StitchDupCfg :
+            /\ kind = "stitchdup" /\ lb = 0 /\ ub = 0 /\ oc = <<"(", "]">> /\ z = NoZone /\ n = 1
+            /\ \E ms \in [1..kp[1] -> [{2 * i : i \in 1..kp[2]} -> 0..2]] :
+                  /\ \E i \in 1..kp[1] : \E p \in DOMAIN ms[i] : ms[i][p] >= 2
+                  /\ s = [i \in 1..kp[1] |-> DupOne(ms[i], 1000 * i)]
+            /\ ubs \in {v \in [1..kp[1] -> 1..(2 * kp[2] + 1)] : Increasing(v) \/ Decreasing(v)}
 
-\* named stitch universes (a cfg file cannot write sets of tuples)
+\* named universes (a cfg file cannot write sets of tuples / records)
 StitchSmall == {<<1, 3>>, <<2, 3>>, <<3, 2>>}
 StitchMid   == {<<1, 4>>, <<2, 4>>, <<3, 3>>}
 StitchBig   == {<<1, 4>>, <<2, 4>>, <<3, 3>>, <<4, 2>>}
 NoStitch    == {}
+NaNStitchSmall == {<<2, 2>>}
+NaNStitchBig   == {<<2, 2>>, <<3, 2>>, <<2, 3>>}
+DupStitchSmall == {<<2, 2>>}
+DupStitchBig   == {<<1, 3>>, <<2, 2>>, <<3, 2>>}
+\* zones, in slots of the grid: H = 1 (a slot is the size of the clock change), the clocks go forward when
+\* 1 / 2 slots have elapsed (Europe/London, America/New_York with one-hour slots) and back when 2 / 3 have
+\* (Europe/London, Australia/Sydney); H = 2 (a slot is half the change): forward after 2 / 4, back after 4 / 6
+ZonesQuick == {[kind |-> "s", G |-> 2, H |-> 1], [kind |-> "f", G |-> 3, H |-> 1]}
+ZonesBig   == {[kind |-> "s", G |-> 2, H |-> 1], [kind |-> "s", G |-> 3, H |-> 1],
+               [kind |-> "f", G |-> 3, H |-> 1], [kind |-> "f", G |-> 4, H |-> 1],
+               [kind |-> "s", G |-> 3, H |-> 2], [kind |-> "f", G |-> 5, H |-> 2],
+               [kind |-> "s", G |-> 5, H |-> 1], [kind |-> "f", G |-> 5, H |-> 1]}      \* the last two: half-hour change (Lord Howe)
+NoZones    == {}
 
-Init == (InitDate \/ InitTod \/ InitStitch) /\ done = FALSE /\ res = <<>>
+Init == (InitDate \/ InitTod \/ InitDateDup \/ InitTodDup \/ InitZone \/ InitStitch \/ InitStitchNaN \/ InitStitchDup) /\ done = FALSE /\ res = <<>>
 
-IsSlice  == cs.kind \in {"date", "tod"}
+IsSlice  == cs.kind \in {"date", "tod", "ltod"}
 IsStitch == cs.kind = "stitch"
+IsStitchDup == cs.kind = "stitchdup"
+NaNFree  == \A i \in 1..Len(cs.ss) : ~(NaN \in RangeOf(cs.ss[i].cols[1]))      \* no series records a missing value
 Sl(xl, xu, xo) == Slice(s, xl, xu, xo, kind, B)
 Out   == res
 UbsI  == IF Increasing(cs.ubs) THEN cs.ubs ELSE Rev(cs.ubs)      \* the bounds / series in increasing order
 SsI   == IF Increasing(cs.ubs) THEN cs.ss ELSE Rev(cs.ss)
 Fr    == res
+\* one column: the concatenation of the "(]" slices between consecutive bounds
+Stitch1(ss, ubsI) == ConcatFrames([i \in 1..Len(ubsI) |-> Slice(ss[i], LoOf(ubsI, i), ubsI[i], <<"(", "]">>, "date", B)], 1)
 Eval  == /\ done = FALSE /\ done' = TRUE
-         /\ res' = IF IsSlice THEN Sl(lb, ub, oc) ELSE Stitch(s, ubs, n)
-         /\ UNCHANGED <<kind, s, lb, ub, oc, ubs, n>>
+         /\ res' = IF IsSlice THEN Sl(lb, ub, oc) ELSE IF IsStitchDup THEN Stitch1(SsI, UbsI) ELSE Stitch(s, ubs, n)
+         /\ UNCHANGED <<kind, s, lb, ub, oc, ubs, n, z>>
 
 \* a session: the caller stitches again, with another n, handing over the same two lists
 Again == /\ done /\ IsStitch
          /\ \E m \in 1..Len(ubs) : m # n /\ n' = m /\ res' = Stitch(s, ubs, m)
-         /\ UNCHANGED <<kind, s, lb, ub, oc, ubs, done>>
+         /\ UNCHANGED <<kind, s, lb, ub, oc, ubs, done, z>>
 Next  == Eval \/ Again
 \* no call touches its arguments (so every call of a session means what the caller wrote)
 ArgsFrame == [][s' = s /\ ubs' = ubs /\ lb' = lb /\ ub' = ub /\ oc' = oc]_vars
 
+\* mechanism models that this case tells apart from the law (the driver insists that each is told apart somewhere)
+Tells(r) == (IF cs.kind = "ltod" /\ SliceElapsed(cs.s, cs.lb, cs.ub, cs.oc, B) # r THEN <<"elapsed">> ELSE <<>>)
+         \o (IF cs.kind = "date" /\ SliceTrimOne(cs.s, cs.lb, cs.ub, cs.oc) # r THEN <<"trimone">> ELSE <<>>)
 EvalGen == Eval /\ PrintT(ToJson(
-    IF IsSlice THEN [kind |-> cs.kind, B |-> B, s |-> cs.s, lb |-> cs.lb, ub |-> cs.ub, oc |-> cs.oc,
-                     wraps |-> Wraps(cs.lb, cs.ub, cs.kind), want |-> res']
+    IF cs.kind = "ltod" THEN [kind |-> cs.kind, B |-> B, s |-> cs.s, lb |-> cs.lb, ub |-> cs.ub, oc |-> cs.oc, z |-> z,
+                              wraps |-> Wraps(cs.lb, cs.ub, cs.kind), want |-> res', tells |-> Tells(res')]
+    ELSE IF IsSlice THEN [kind |-> cs.kind, B |-> B, s |-> cs.s, lb |-> cs.lb, ub |-> cs.ub, oc |-> cs.oc,
+                     wraps |-> Wraps(cs.lb, cs.ub, cs.kind), want |-> res', tells |-> Tells(res')]
+    ELSE IF IsStitchDup THEN [kind |-> "stitchdup", ss |-> cs.ss, ubs |-> cs.ubs, n |-> 1]
     ELSE [kind |-> "stitch", ss |-> cs.ss, ubs |-> cs.ubs, n |-> cs.n, ubsI |-> UbsI, want |-> res']))
 
+\* the rows of the series by position; the first column identifies the row (all its cells are different)
+AllIx     == 1..NRows(cs.s)
+KeyI(i)   == KeyAt(cs.s, i, cs.kind, B)
+IxOf(f)   == {i \in AllIx : \E k \in 1..NRows(f) : f.cols[1][k] = cs.s.cols[1][i]}
+OutIx     == IxOf(Out)
 RowSet(f) == RangeOf(f.rows)
-KeyOf(t)  == Key(t, cs.kind, B)
 
 \* ---- one slice -------------------------------------------------------------------------------
-\* the result is a sub-series: rows in order, each with the values it had
+\* the result is a sub-series: the kept rows in order, each once, each with the values it had
 SliceSub == (done /\ IsSlice) =>
-    /\ WellFormed(Out) /\ NCols(Out) = NCols(cs.s)
-    /\ \A k \in 1..NRows(Out) : \E i \in 1..NRows(cs.s) :
-          cs.s.rows[i] = Out.rows[k] /\ \A j \in 1..NCols(cs.s) : cs.s.cols[j][i] = Out.cols[j][k]
+    LET O == OutIx IN
+    /\ SortedFrame(Out) /\ NCols(Out) = NCols(cs.s)
+    /\ Out = KeepRows(cs.s, LAMBDA i : i \in O)
 \* a missing bound is unbounded
-Unbounded == (done /\ IsSlice /\ cs.lb = 0 /\ cs.ub = 0) => Out = cs.s
+Unbounded == (done /\ IsSlice /\ cs.lb = 0 /\ cs.ub = 0) => Out = KeepRows(cs.s, LAMBDA i : TRUE)
 OneSided  == (done /\ IsSlice) =>
-    /\ cs.ub = 0 /\ cs.lb # 0 => RowSet(Out) = {t \in RowSet(cs.s) : IF Closed(cs.oc[1]) THEN KeyOf(t) >= cs.lb ELSE KeyOf(t) > cs.lb}
-    /\ cs.lb = 0 /\ cs.ub # 0 => RowSet(Out) = {t \in RowSet(cs.s) : IF Closed(cs.oc[2]) THEN KeyOf(t) <= cs.ub ELSE KeyOf(t) < cs.ub}
+    /\ cs.ub = 0 /\ cs.lb # 0 => OutIx = {i \in AllIx : IF Closed(cs.oc[1]) THEN KeyI(i) >= cs.lb ELSE KeyI(i) > cs.lb}
+    /\ cs.lb = 0 /\ cs.ub # 0 => OutIx = {i \in AllIx : IF Closed(cs.oc[2]) THEN KeyI(i) <= cs.ub ELSE KeyI(i) < cs.ub}
 \* two bounds = the intersection of the two one-sided slices, or their union when the window wraps
 TwoSided  == (done /\ IsSlice /\ cs.lb # 0 /\ cs.ub # 0) =>
-    LET L == RowSet(Sl(cs.lb, 0, cs.oc))  U == RowSet(Sl(0, cs.ub, cs.oc)) IN
-    RowSet(Out) = IF cs.kind = "tod" /\ cs.lb > cs.ub THEN L \cup U ELSE L \cap U
+    LET L == IxOf(Sl(cs.lb, 0, cs.oc))  U == IxOf(Sl(0, cs.ub, cs.oc)) IN
+    OutIx = IF TodMode(cs.kind) /\ cs.lb > cs.ub THEN L \cup U ELSE L \cap U
 \* a closed bracket adds exactly the rows on the bound to what the open bracket gives
 Brackets  == (done /\ IsSlice /\ (cs.lb = 0 \/ cs.ub = 0 \/ cs.lb < cs.ub \/ Wraps(cs.lb, cs.ub, cs.kind))) =>
-    RowSet(Out) = RowSet(Sl(cs.lb, cs.ub, <<"(", ")">>))
-                  \cup (IF Closed(cs.oc[1]) /\ cs.lb # 0 THEN {t \in RowSet(cs.s) : KeyOf(t) = cs.lb} ELSE {})
-                  \cup (IF Closed(cs.oc[2]) /\ cs.ub # 0 THEN {t \in RowSet(cs.s) : KeyOf(t) = cs.ub} ELSE {})
+    OutIx = IxOf(Sl(cs.lb, cs.ub, <<"(", ")">>))
+                  \cup (IF Closed(cs.oc[1]) /\ cs.lb # 0 THEN {i \in AllIx : KeyI(i) = cs.lb} ELSE {})
+                  \cup (IF Closed(cs.oc[2]) /\ cs.ub # 0 THEN {i \in AllIx : KeyI(i) = cs.ub} ELSE {})
 \* consecutive "(]" slices partition the series
 Partition == (done /\ IsSlice /\ cs.lb # 0 /\ cs.ub # 0 /\ cs.lb <= cs.ub) =>
     LET hc == <<"(", "]">>
-        a == RowSet(Sl(0, cs.lb, hc))  b == RowSet(Sl(cs.lb, cs.ub, hc))  c == RowSet(Sl(cs.ub, 0, hc)) IN
-    a \cup b \cup c = RowSet(cs.s) /\ a \cap b = {} /\ a \cap c = {} /\ b \cap c = {}
+        a == IxOf(Sl(0, cs.lb, hc))  b == IxOf(Sl(cs.lb, cs.ub, hc))  c == IxOf(Sl(cs.ub, 0, hc)) IN
+    a \cup b \cup c = AllIx /\ a \cap b = {} /\ a \cap c = {} /\ b \cap c = {}
 \* a wrapping window is the complement of the window between its end and its start, brackets flipped
 WrapComplement == (done /\ IsSlice /\ Wraps(cs.lb, cs.ub, cs.kind)) =>
     LET flipped == <<IF Closed(cs.oc[2]) THEN "(" ELSE "[", IF Closed(cs.oc[1]) THEN ")" ELSE "]">> IN
-    RowSet(Out) = RowSet(cs.s) \ RowSet(Sl(cs.ub, cs.lb, flipped))
+    OutIx = AllIx \ IxOf(Sl(cs.ub, cs.lb, flipped))
+\* rows with equal timestamps are all inside or all outside; so are rows with the same time of day on
+\* different days, or on the two sides of a clock change, when the bounds are times of day
+DupTogether == (done /\ IsSlice) => LET O == OutIx IN \A i, j \in AllIx : cs.s.rows[i] = cs.s.rows[j] => (i \in O <=> j \in O)
+SameTodTogether == (done /\ IsSlice /\ TodMode(cs.kind)) => LET O == OutIx IN \A i, j \in AllIx : KeyI(i) = KeyI(j) => (i \in O <=> j \in O)
+\* only the wall clock matters: an index in a time zone is cut like the naive index that shows the same wall-clock times
+LocalClock == (done /\ cs.kind = "ltod") =>
+    OutIx = {i \in AllIx : InSlice(B * (cs.s.rows[i] \div B) + cs.s.tod[i], cs.lb, cs.ub, cs.oc, "tod", B)}
 \* mechanism of today's wrap-around branch: right for the default brackets "(]" ...
-WrapMechDefault == (done /\ IsSlice /\ Wraps(cs.lb, cs.ub, cs.kind) /\ cs.oc = <<"(", "]">>) =>
+WrapMechDefault == (done /\ cs.kind = "tod" /\ Wraps(cs.lb, cs.ub, cs.kind) /\ cs.oc = <<"(", "]">>) =>
     WrapAsCoded(cs.s, cs.lb, cs.ub, cs.oc, cs.kind, B) = Out
 \* ... and wrong for the others (checked with must_fail in MC_Slice_wrapmech.cfg)
-WrapMechIsLaw == (done /\ IsSlice /\ Wraps(cs.lb, cs.ub, cs.kind)) =>
+WrapMechIsLaw == (done /\ cs.kind = "tod" /\ Wraps(cs.lb, cs.ub, cs.kind)) =>
     WrapAsCoded(cs.s, cs.lb, cs.ub, cs.oc, cs.kind, B) = Out
+\* the two re-implementations agree with the law away from their blind spots: elapsed time = time of day
+\* on ordinary days, and taking one row off is enough while timestamps are not repeated
+ElapsedOrdinary == (done /\ cs.kind = "ltod" /\ \A i \in AllIx : cs.s.rows[i] \div B # 1) =>
+    SliceElapsed(cs.s, cs.lb, cs.ub, cs.oc, B) = Out
+TrimOneUnique == (done /\ cs.kind = "date" /\ ~HasDupRows(cs.s)) => SliceTrimOne(cs.s, cs.lb, cs.ub, cs.oc) = Out
 
 \* ---- stitching -------------------------------------------------------------------------------
 \* each timestamp at most once, in time order, n columns
 StitchOnce == (done /\ IsStitch) => (WellFormed(Fr) /\ NCols(Fr) = cs.n)
 \* with one column the result is the concatenation of the "(]" slices between consecutive bounds
-StitchN1 == (done /\ IsStitch /\ cs.n = 1) =>
-    Fr = ConcatFrames([i \in 1..Len(UbsI) |-> Slice(SsI[i], LoOf(UbsI, i), UbsI[i], <<"(", "]">>, "date", B)], 1)
+StitchN1 == (done /\ IsStitch /\ cs.n = 1) => Fr = Stitch1(SsI, UbsI)
 \* column j, where it has data, is the one-column stitching of series j, j+1, .. at the same bounds
-StitchColumn == (done /\ IsStitch) => \A j \in 1..cs.n :
+StitchColumn == (done /\ IsStitch /\ NaNFree) => \A j \in 1..cs.n :
     LET k == Len(UbsI)
         colj == KeepRows([rows |-> Fr.rows, cols |-> <<Fr.cols[j]>>], LAMBDA r : Fr.cols[j][r] # NaN) IN
     colj = StitchInc(SubSeq(SsI, j, k), SubSeq(UbsI, 1, k - j + 1), 1)
@@ -127,9 +211,25 @@ StitchRows == (done /\ IsStitch) =>
 StitchReverse == (done /\ IsStitch) => Stitch(Rev(cs.ss), Rev(cs.ubs), cs.n) = Fr
 \* unstitching: stitching the recovered series again reproduces the frame; the recovered series
 \* are parts of the original ones
-RoundTrip == (done /\ IsStitch) => IsUnstitch(Unstitch(Fr, UbsI, cs.n), Fr, UbsI, cs.n)
-Recovers  == (done /\ IsStitch) => \A i \in 1..Len(UbsI) :
+RoundTrip == (done /\ IsStitch /\ NaNFree) => IsUnstitch(Unstitch(Fr, UbsI, cs.n), Fr, UbsI, cs.n)
+Recovers  == (done /\ IsStitch /\ NaNFree) => \A i \in 1..Len(UbsI) :
     LET u == Unstitch(Fr, UbsI, cs.n)[i] IN
     /\ \A r \in 1..NRows(u) : HasT(SsI[i], u.rows[r]) /\ ValAt(SsI[i], u.rows[r]) = u.cols[1][r]
     /\ \A t \in RowSet(SsI[i]) : (\E x \in 1..i : i - x < cs.n /\ InInterval(t, UbsI, x)) => HasT(u, t)
+\* a row is a row whatever its value: which timestamps are shown does not depend on the values recorded, and a
+\* recorded NaN is shown as NaN where the value would have been
+StitchValueBlind == (done /\ IsStitch) =>
+    LET Fill(x) == [rows |-> x.rows, cols |-> <<[r \in 1..NRows(x) |-> IF x.cols[1][r] = NaN THEN 7 ELSE x.cols[1][r]]>>]
+        G == Stitch([i \in 1..Len(cs.ss) |-> Fill(cs.ss[i])], cs.ubs, cs.n)
+    IN  /\ Fr.rows = G.rows
+        /\ \A j \in 1..cs.n : \A r \in 1..NRows(Fr) : Fr.cols[j][r] = (IF G.cols[j][r] = 7 THEN NaN ELSE G.cols[j][r])
+\* repeated timestamps: the concatenation of the slices is one of the admitted results, and so is the one that
+\* shows every timestamp once; a result that keeps a row of the wrong series on a bound is not
+StitchDupLaw == (done /\ IsStitchDup) =>
+    /\ StitchDupOK(SsI, UbsI, Fr)
+    /\ StitchDupOK(SsI, UbsI, KeepRows(Fr, LAMBDA r : r = 1 \/ Fr.rows[r] # Fr.rows[r - 1]))
+StitchDupStrict == (done /\ IsStitchDup /\ Len(UbsI) >= 2) =>
+    LET lo == UbsI[1]
+        intruder == [rows |-> <<lo>>, cols |-> <<<<1>>>>]          \* a row on the first bound that series 1 does not have
+    IN  ~StitchDupOK(SsI, UbsI, ConcatFrames(<<KeepRows(Fr, LAMBDA r : Fr.rows[r] <= lo), intruder, KeepRows(Fr, LAMBDA r : Fr.rows[r] > lo)>>, 1))
 =============================================================================
